@@ -332,6 +332,15 @@ func systematicPkgCases(id *int, profile, scratch string, rng *rand.Rand, tier s
 			c.Entries = []Entry{plain}
 			add(c, nodes, "scripts-and-changelog")
 		}
+		// the script files are rewritten between two builds of the same configuration in one process (scripts generated per
+		// target): the second packages carry the new bytes
+		for _, slots := range [][]string{{"preinstall", "postinstall", "preremove", "postremove"}, scriptSlots} {
+			c := baseCfg("rescriptpkg")
+			nodes := append(smallTree(), addScripts(rng, c, slots)...)
+			c.Entries = []Entry{plain}
+			add(c, nodes, "rewritten-scripts")
+			out[len(out)-1].Rescript = true
+		}
 		// one script file used for several slots (a dispatching maintainer script)
 		for _, slots := range [][]string{{"preinstall", "preremove"}, {"postinstall", "postremove", "preinstall"}, commonSlots} {
 			c := baseCfg("sharedscript")
